@@ -166,6 +166,7 @@ type modelQuery struct {
 	o      *Obligation
 	script string
 	cache  map[string]*sx
+	extra  string // size constraints of the small-model search
 	failed bool
 	note   string
 }
@@ -185,7 +186,7 @@ func (m *modelQuery) solverCmd(file string) []string {
 // small integers): such models reproduce on the real code without truncation.
 func (m *modelQuery) preferSmall(fc *fnCtx, fn *ssa.Function) {
 	names := paramNames(fn)
-	tiers := [][3]int64{{3, 4, 8}, {6, 12, 1 << 20}}
+	tiers := [][3]int64{{3, 4, 8}, {8, 12, 1 << 20}}
 	for _, tier := range tiers {
 		var cons []string
 		var add func(term string, t types.Type, depth int)
@@ -211,14 +212,30 @@ func (m *modelQuery) preferSmall(fc *fnCtx, fn *ssa.Function) {
 			}
 		}
 		for i, p := range fn.Params {
-			if v, ok := fc.params[names[i]]; ok {
-				add(v.T, p.Type(), 0)
+			v, ok := fc.params[names[i]]
+			if !ok {
+				continue
+			}
+			add(v.T, p.Type(), 0)
+			// one level through pointers: the fields of the pointed-to struct in the entry heap
+			if pt, isPtr := p.Type().Underlying().(*types.Pointer); isPtr {
+				if ss := fc.S().structOf(pt.Elem()); ss != nil {
+					entry := &State{heapBase: fc.entry.heapBase, heap: fc.entry.heap}
+					for fi := range ss.fields {
+						hn, hs := fc.heapFieldName(pt.Elem(), fi)
+						add(fmt.Sprintf("(select %s %s)", fc.heapGet(entry, hn, hs), v.T), ss.ftypes[fi], 1)
+					}
+				}
 			}
 		}
 		if len(cons) == 0 {
 			return
 		}
-		script := strings.Replace(m.script, "(check-sat)", strings.Join(cons, "\n")+"\n(check-sat)", 1)
+		// re-slice the definitions so that every symbol of the size constraints is declared
+		extra := strings.Join(cons, "\n")
+		body, _ := m.o.fc.defs.Slice(m.o.PC, m.o.Goal, extra)
+		tail := fmt.Sprintf("(assert %s)\n(assert (not %s))\n", m.o.PC, m.o.Goal)
+		script := m.eng.sorts.Prelude(body+tail+extra) + body + tail + extra + "\n(check-sat)\n"
 		file := filepath.Join(m.eng.tmpdir, "replay-small-"+sanitize(m.o.Name)+".smt2")
 		os.WriteFile(file, []byte(script), 0o644)
 		argv := m.solverCmd(file)
@@ -232,6 +249,7 @@ func (m *modelQuery) preferSmall(fc *fnCtx, fn *ssa.Function) {
 			}
 			if ln == "sat" {
 				m.script = script
+				m.extra = extra
 				return
 			}
 			break
@@ -251,7 +269,17 @@ func (m *modelQuery) get(terms []string) {
 		return
 	}
 	var b strings.Builder
-	b.WriteString(m.script)
+	// slice the definitions again so that every queried symbol is declared
+	{
+		all := strings.Join(need, " ")
+		body, _ := m.o.fc.defs.Slice(m.o.PC, m.o.Goal, m.extra, all)
+		tail := fmt.Sprintf("(assert %s)\n(assert (not %s))\n", m.o.PC, m.o.Goal)
+		b.WriteString(m.eng.sorts.Prelude(body + tail + m.extra + all))
+		b.WriteString(body)
+		b.WriteString(tail)
+		b.WriteString(m.extra)
+		b.WriteString("\n(check-sat)\n")
+	}
 	for _, t := range need {
 		fmt.Fprintf(&b, "(get-value (%s))\n", t)
 	}
@@ -360,12 +388,12 @@ func (lb *litBuilder) heapEntry(name, sort string) string {
 }
 
 const maxStrLen = 24
-const maxSliceLen = 6
+const maxSliceLen = 8
 
 // lit builds a Go expression for the model value of SMT term `term` of Go type t.
 func (lb *litBuilder) lit(term string, t types.Type, depth int) string {
 	S := lb.fc.S()
-	if depth > 4 {
+	if depth > 7 {
 		lb.approx = append(lb.approx, "depth limit at "+lb.typeExpr(t))
 		return lb.zero(t)
 	}
